@@ -1,7 +1,8 @@
 (* C06 — sigma verifiers accept exactly hash-consistent, equation-satisfying proofs. *)
 From Coq Require Import ZArith Znumtheory List.
 From Strand Require Import Base.ZUtil Model.Outcome Model.Codec Model.Backend Model.ZBackend Model.Zkp Model.Exec
-  Proofs.Laws Proofs.ZLaws Proofs.SigmaP Proofs.ZInst Proofs.Corollaries.
+  Proofs.Laws Proofs.ZLaws Proofs.SigmaP Proofs.ZInst Proofs.Corollaries
+  Base.ZpField Base.Edwards Model.Ristretto Model.RistrettoFast Model.RBackend Proofs.PrimeCerts Proofs.RistrettoGroup Proofs.EdwardsBackend.
 Open Scope Z_scope.
 
 Theorem C06_schnorr_decision : forall (B : Backend) (mem : E B -> Prop), Laws B mem ->
@@ -43,3 +44,14 @@ Theorem C06_special_soundness : forall (B : Backend) (mem : E B -> Prop), Laws B
   exists x, 0 <= x < b_q B /\ pub = b_pow B base x.
 Proof. exact schnorr_special_soundness. Qed.
 Print Assumptions C06_special_soundness.
+
+(* special soundness holds outright for the curve25519 Edwards group with the ristretto scalar ring: its laws are proved
+   (Proofs/EdwardsBackend.v) and its order l is prime (Pocklington certificate) *)
+Theorem C06_edwards_group_special_soundness : forall (K : Kernel) base pub com c1 s1 c2 s2,
+  memA base -> memA pub -> memA com -> 0 <= c1 -> 0 <= c2 -> 0 <= s1 -> 0 <= s2 ->
+  c1 mod ell <> c2 mod ell ->
+  b_pow (AB K) base s1 = b_mulp (AB K) com (b_pow (AB K) pub c1) ->
+  b_pow (AB K) base s2 = b_mulp (AB K) com (b_pow (AB K) pub c2) ->
+  exists x, 0 <= x < ell /\ pub = b_pow (AB K) base x.
+Proof. intro K. exact (schnorr_special_soundness (AB K) memA (AB_laws K) ell_prime). Qed.
+Print Assumptions C06_edwards_group_special_soundness.
